@@ -88,7 +88,10 @@ Under(key, E) == { << <<key>> \o x[1], x[2] >> : x \in E }
 IsPrefixOf(p, q) == Len(p) <= Len(q) /\ \A i \in DOMAIN p : p[i] = q[i]
 Satisfied(req, got) == \A q \in req : IF q[2] = "ANY" THEN \E g \in got : IsPrefixOf(q[1], g[1])
                                        ELSE q \in got
-Permitted(got, req, extra) == \A g \in got : g \in req \/ g \in extra
+Permitted(got, req, extra) ==
+  \A g \in got : \/ g \in req
+                  \/ g \in extra
+                  \/ \E q \in extra : (q[2] = "ANY" /\ IsPrefixOf(q[1], g[1]))
 
 \* Outcomes of a (de)serialization
 Ok(v)      == [ok |-> TRUE,  v |-> v,     e |-> {}, x |-> {}]
